@@ -33,55 +33,6 @@ theorem env_precedence (penv : List (Key × Str)) (fs : FS) (discard : Bool) (s 
     | none => rfl
     | some v => cases v <;> rfl
 
-/-- the environment of the files alone (no `environment` entry for `k`): the last file that gives `k` a value wins -/
-theorem filesVal_snoc (penv : List (Key × Str)) (files : List (List Line)) (f : List Line) (k : Key) :
-    filesVal penv (files ++ [f]) k =
-      orElse (fileVal (envLook penv (filesVal penv files)) f k) (filesVal penv files k) := by
-  simp only [filesVal, List.reverse_append, List.reverse_cons, List.reverse_nil, List.nil_append,
-    List.cons_append, filesValRevFrom]
-  rfl
-
-/-- a line speaks about key `k` -/
-def Line.key? : Line → Option Key
-  | .assign k _ => some k
-  | .bare k => some k
-  | .bad => none
-
-def Mentions (ls : List Line) (k : Key) : Prop := ∃ l ∈ ls, Line.key? l = some k
-
-theorem fileValRevFrom_not_mentions (look : Look) (base : Key → Option Str) (ls : List Line) (k : Key)
-    (h : ¬ Mentions ls k) : fileValRevFrom look base ls k = base k := by
-  induction ls with
-  | nil => rfl
-  | cons x r ih =>
-    have hr : ¬ Mentions r k := fun ⟨l, hl, e⟩ => h ⟨l, List.mem_cons_of_mem _ hl, e⟩
-    cases x with
-    | assign k' v =>
-      have : ¬ k' = k := fun e => h ⟨_, List.mem_cons_self, by simp [Line.key?, e]⟩
-      simp [fileValRevFrom, this, ih hr]
-    | bare k' =>
-      have : ¬ k' = k := fun e => h ⟨_, List.mem_cons_self, by simp [Line.key?, e]⟩
-      simp [fileValRevFrom, this, ih hr]
-    | bad => simp [fileValRevFrom, ih hr]
-
-/-- a file that does not mention `k` gives it no value -/
-theorem fileVal_not_mentions (look : Look) (ls : List Line) (k : Key) (h : ¬ Mentions ls k) :
-    fileVal look ls k = none := by
-  unfold fileVal
-  rw [fileValRevFrom_not_mentions]
-  intro ⟨l, hl, e⟩
-  exact h ⟨l, List.mem_reverse.1 hl, e⟩
-
-theorem filesVal_append_not_mentions (penv : List (Key × Str)) (files post : List (List Line)) (k : Key)
-    (h : ∀ g ∈ post, ¬ Mentions g k) : filesVal penv (files ++ post) k = filesVal penv files k := by
-  induction post generalizing files with
-  | nil => simp
-  | cons g r ih =>
-    have e : files ++ g :: r = (files ++ [g]) ++ r := by simp
-    rw [e, ih _ (fun g' hg' => h g' (List.mem_cons_of_mem _ hg')), filesVal_snoc,
-      fileVal_not_mentions _ _ _ (h g List.mem_cons_self)]
-    rfl
-
 /-- **later_file_wins.**  If an env file gives `k` the value `v`, no later env file mentions `k` and
     `environment` does not mention `k`, the final value of `k` is `v` — whatever earlier files say. -/
 theorem later_file_wins (penv : List (Key × Str)) (fs : FS) (discard : Bool) (s s' : Service)
@@ -176,12 +127,6 @@ theorem bare_line_inherits (look : Look) (pre post : List Line) (k : Key) (hpost
 
 /-! ## labels -/
 
-theorem labelFilesVal_snoc (files : List (List Line)) (f : List Line) (k : Key) :
-    labelFilesVal (files ++ [f]) k = orElse (fileVal (labelFilesVal files) f k) (labelFilesVal files k) := by
-  simp only [labelFilesVal, List.reverse_append, List.reverse_cons, List.reverse_nil, List.nil_append,
-    List.cons_append, labelFilesValRevFrom]
-  rfl
-
 /-- **labels_precedence.**  Labels are layered the same way: `labels` over the last label file that
     defines the key; references in label files see earlier label files and earlier lines only. -/
 theorem labels_precedence (fs : FS) (discard : Bool) (s s' : Service)
@@ -218,19 +163,6 @@ theorem labels_precedence (fs : FS) (discard : Bool) (s s' : Service)
       cases finalLabel (labelContents fs s.labelFiles) s.labels k <;> rfl
 
 /-! ## missing files -/
-
-theorem loadEnvFiles_append (penv : List (Key × Str)) (fs : FS) (a b : List EnvFile) (acc : List (Key × Str)) :
-    loadEnvFiles penv fs (a ++ b) acc =
-      match loadEnvFiles penv fs a acc with
-      | .error e => .error e
-      | .ok acc' => loadEnvFiles penv fs b acc' := by
-  induction a generalizing acc with
-  | nil => rfl
-  | cons f r ih =>
-    simp only [List.cons_append, loadEnvFiles]
-    cases loadEnvFile fs f (envChain penv acc) with
-    | error e => rfl
-    | ok vars => exact ih _
 
 /-- **missing_required_err.**  If the env files before `f` load and `f` is missing and required,
     environment resolution fails with "not found" (whatever follows). -/
@@ -329,5 +261,84 @@ theorem labels_discard_only_drops_refs (fs : FS) (s : Service) :
       (resolveServiceLabels fs false s).map (fun s' => { s' with labelFiles := [] }) := by
   unfold resolveServiceLabels
   cases loadLabelFiles fs s.labelFiles [] <;> rfl
+
+/-! ## non-vacuity: a concrete project on which the hypotheses above hold and the layers all matter -/
+namespace Example
+
+def f1 : List Line := [.assign ['A'] [.lit ['1']], .assign ['B'] [.lit ['b'], .ref ['A']], .bare ['C']]
+def f2 : List Line := [.assign ['A'] [.lit ['2']], .assign ['D'] [.lit ['d']], .assign ['G'] [.ref ['A']]]
+
+def fs0 : FS := fun p =>
+  if p = ['f', '1'] then some (.file f1)
+  else if p = ['f', '2'] then some (.file f2)
+  else if p = ['d'] then some .dir
+  else none
+
+def penv0 : List (Key × Str) := [(['C'], ['c'])]
+
+def s0 : Service :=
+  { environment := [(['C'], none), (['D'], none), (['E'], some ['e'])]
+    envFiles := [⟨['f', '1'], true, []⟩, ⟨['f', '3'], false, []⟩, ⟨['f', '2'], true, []⟩]
+    labels := [(['L'], ['l'])]
+    labelFiles := [['f', '1']] }
+
+/-- hypotheses of `env_precedence` (and of the value-less / explicit-value corollaries) hold on `s0`, and the result
+    shows every layer: `A` from the later file, `B` through a reference to an earlier line, `C` value-less from the project
+    environment, `D` value-less and unset although `f2` defines it, `E` explicit, `G` a reference to an earlier file. -/
+example : Distinct s0.environment ∧ ∃ s', resolveServiceEnv penv0 fs0 true s0 = .ok s' ∧
+    lookup ['A'] s'.environment = some (some ['2']) ∧
+    lookup ['B'] s'.environment = some (some ['b', '1']) ∧
+    lookup ['C'] s'.environment = some (some ['c']) ∧
+    lookup ['D'] s'.environment = some none ∧
+    lookup ['E'] s'.environment = some (some ['e']) ∧
+    lookup ['G'] s'.environment = some (some ['1']) ∧
+    lookup ['Z'] s'.environment = none ∧
+    s'.envFiles = [] := by
+  refine ⟨by decide, _, rfl, ?_⟩
+  decide
+
+/-- hypotheses of `later_file_wins` hold: `f2` is the last file, gives `A` a value, `environment` does not mention `A` -/
+example : envContents fs0 s0.envFiles = [f1] ++ f2 :: [] ∧ lookup ['A'] s0.environment = none ∧
+    fileVal (envLook penv0 (filesVal penv0 [f1])) f2 ['A'] = some ['2'] ∧ (∀ g ∈ ([] : List (List Line)), ¬ Mentions g ['A']) := by
+  refine ⟨by decide, by decide, by decide, ?_⟩
+  intro g hg; cases hg
+
+/-- hypotheses of `valueless_takes_project_env` / `valueless_absent_is_unset` / `explicit_value_wins` -/
+example : lookup ['C'] s0.environment = some none ∧ lookup ['C'] penv0 = some ['c'] ∧
+    lookup ['D'] s0.environment = some none ∧ lookup ['D'] penv0 = none ∧
+    lookup ['E'] s0.environment = some (some ['e']) := by decide
+
+/-- hypotheses of `labels_precedence`: label file `f1` and `labels` -/
+example : Distinct s0.labels ∧ ∃ s', resolveServiceLabels fs0 false s0 = .ok s' ∧
+    lookup ['A'] s'.labels = some ['1'] ∧ lookup ['L'] s'.labels = some ['l'] ∧ lookup ['C'] s'.labels = none ∧
+    s'.labelFiles = [['f', '1']] := by
+  refine ⟨by decide, _, rfl, ?_⟩
+  decide
+
+/-- hypotheses of `missing_required_err`: the files before the missing required one load -/
+example : ∃ acc, loadEnvFiles penv0 fs0 [⟨['f', '1'], true, []⟩] [] = .ok acc ∧ fs0 ['f', '3'] = none :=
+  ⟨_, rfl, by decide⟩
+
+example : resolveServiceEnv penv0 fs0 false { s0 with envFiles := [⟨['f', '1'], true, []⟩, ⟨['f', '3'], true, []⟩] } = .error .notFound := rfl
+
+/-- hypotheses of `missing_optional_skipped` -/
+example : fs0 ['f', '3'] = none ∧ (⟨['f', '3'], false, []⟩ : EnvFile).required = false := by decide
+
+/-- hypotheses of `missing_label_file_err` -/
+example : resolveServiceLabels fs0 false { s0 with labelFiles := [['f', '1'], ['f', '3']] } = .error .notFound := rfl
+
+/-- other error classes of the model are reachable: a directory, a format, a rejected line -/
+example : resolveServiceEnv penv0 fs0 false { s0 with envFiles := [⟨['d'], false, []⟩] } = .error .read := rfl
+example : resolveServiceEnv penv0 fs0 false { s0 with envFiles := [⟨['f', '1'], false, ['r', 'a', 'w']⟩] } = .error .format := rfl
+example : parseLines (fun _ => none) [.assign ['A'] [], .bad] [] = .error .parse := rfl
+
+/-- hypothesis of `crossref_chain` / `file_value_chain` / `bare_line_inherits`: a key not mentioned later -/
+example : ¬ Mentions [Line.assign ['X'] []] ['A'] := by
+  intro ⟨l, hl, e⟩
+  simp only [List.mem_singleton] at hl
+  subst hl
+  simp [Line.key?] at e
+
+end Example
 
 end CV.EnvLayers
